@@ -12,33 +12,45 @@ EXTENDS Blake2, Json, IOUtils, Integers, TLC
 Traces == ndJsonDeserialize(IOEnv.TRACE_FILE)
 VARIABLES vvTid, vvPos, vvSt, vvBad
 C(name, exp) == [c |-> name, e |-> exp]
-Digest(b, p, data) ==
+\* "preset": the byte counter starts at `base` (a 2-word number as 16-bit limbs) instead of 0 - as if that many bytes had been
+\* compressed before, with the chaining value still the initial one; covers the carry from t0 into t1
+ZeroBase(b) == WFromNat(0, IF b THEN 8 ELSE 4)
+CtrFrom(b, base, n) == LET t == WAddNat(base, n)  w == IF b THEN 4 ELSE 2 IN <<SubSeq(t, 1, w), SubSeq(t, w + 1, 2 * w)>>
+RECURSIVE FoldFrom(_,_,_,_,_)
+FoldFrom(b, h, data, i, base) ==
+  LET B == Blake2BlockBytes(b)  n == Len(data) IN
+  IF (i+1)*B >= n
+  THEN Blake2F(b, h, Blake2PadTo(SubSeq(data, i*B + 1, n), B), CtrFrom(b, base, n), TRUE, FALSE)
+  ELSE FoldFrom(b, Blake2F(b, h, SubSeq(data, i*B + 1, (i+1)*B), CtrFrom(b, base, (i+1)*B), FALSE, FALSE), data, i+1, base)
+DigestFrom(b, p, data, base) ==
   LET h0 == Blake2Params(b, p.outlen, p.keylen, p.fanout, p.depth, p.leafl, p.noffset, p.ndepth, p.inner, p.salt, p.pers)
       B == Blake2BlockBytes(b)
-  IN Blake2Out(IF Len(data) = 0 THEN Blake2F(b, h0, Rep(0, B), Blake2Ctr(b, 0), TRUE, FALSE)
-               ELSE Blake2Fold(b, h0, data, 0, FALSE), p.outlen)
+  IN Blake2Out(IF Len(data) = 0 THEN Blake2F(b, h0, Rep(0, B), CtrFrom(b, base, 0), TRUE, FALSE)
+               ELSE FoldFrom(b, h0, data, 0, base), p.outlen)
+Digest(b, p, data) == DigestFrom(b, p, data, ZeroBase(b))
 ParOk(b, p) == p.outlen >= 1 /\ p.outlen <= (IF b THEN 64 ELSE 32) /\ p.keylen <= (IF b THEN 64 ELSE 32)
 Cnt(n) == <<(8*n) % 65536, (8*n) \div 65536, 0, 0, 0, 0, 0, 0>>          \* bit counter as 8 limbs (n < 2^27 bytes)
 Judge(b, s, e) ==
-  CASE e.op = "init" -> [st |-> [par |-> e.par, fed |-> <<>>, fin |-> FALSE],
+  CASE e.op = "preset" -> [st |-> [s EXCEPT !.base = e.base], bad |-> <<>>]
+    [] e.op = "init" -> [st |-> [par |-> e.par, fed |-> <<>>, fin |-> FALSE, base |-> ZeroBase(b)],
                          bad |-> IF ParOk(b, e.par) THEN (IF e.raised # "" THEN <<C("must-not-raise", "initstate")>> ELSE <<>>)
                                  ELSE (IF e.raised = "" THEN <<C("must-reject-parameters", "an exception")>> ELSE <<>>)]
     [] e.op = "call" -> IF ~ParOk(b, e.par) THEN [st |-> s, bad |-> IF e.raised = "" THEN <<C("must-reject-parameters", "an exception")>> ELSE <<>>]
                         ELSE LET d == Digest(b, e.par, e.m) IN
-                             [st |-> [par |-> e.par, fed |-> e.m, fin |-> TRUE],
+                             [st |-> [par |-> e.par, fed |-> e.m, fin |-> TRUE, base |-> ZeroBase(b)],
                               bad |-> IF e.raised # "" THEN <<C("must-not-raise", d)>> ELSE IF e.out # d THEN <<C("digest", d)>> ELSE <<>>]
     [] e.op = "update" ->
          IF s.fin \/ (~e.padding /\ (Len(e.m) % Blake2BlockBytes(b)) # 0)
          THEN [st |-> s, bad |-> IF e.raised = "" THEN <<C("must-refuse", "an exception")>> ELSE <<>>]
          ELSE LET all == s.fed \o e.m IN
               IF e.padding
-              THEN LET d == Digest(b, s.par, all) IN
+              THEN LET d == DigestFrom(b, s.par, all, s.base) IN
                    [st |-> [s EXCEPT !.fed = all, !.fin = TRUE],
                     bad |-> IF e.raised # "" THEN <<C("must-not-raise", d)>> ELSE IF e.out # d THEN <<C("digest", d)>> ELSE <<>>]
               ELSE [st |-> [s EXCEPT !.fed = all],
                     bad |-> IF e.raised # "" THEN <<C("must-not-raise", "continuation")>>
-                            ELSE IF e.bitcnt # Cnt(Len(all)) THEN <<C("bitcnt-after-piece", Cnt(Len(all)))>> ELSE <<>>]
-Init == vvTid \in 1..Len(Traces) /\ vvPos = 0 /\ vvSt = [par |-> Traces[vvTid].par0, fed |-> <<>>, fin |-> FALSE] /\ vvBad = 0
+                            ELSE IF s.base = ZeroBase(b) /\ e.bitcnt # Cnt(Len(all)) THEN <<C("bitcnt-after-piece", Cnt(Len(all)))>> ELSE <<>>]
+Init == vvTid \in 1..Len(Traces) /\ vvPos = 0 /\ vvSt = [par |-> Traces[vvTid].par0, fed |-> <<>>, fin |-> FALSE, base |-> ZeroBase(Traces[vvTid].b)] /\ vvBad = 0
 Next == /\ vvPos < Len(Traces[vvTid].ev)
         /\ \E j \in {Judge(Traces[vvTid].b, vvSt, Traces[vvTid].ev[vvPos+1])} :
            /\ vvSt' = j.st /\ vvPos' = vvPos + 1 /\ vvBad' = vvBad + Len(j.bad) /\ UNCHANGED vvTid
